@@ -262,6 +262,9 @@ func propertyFailsL(prop, op, res, lean string) (why string) {
 			}
 		}
 	case "C06":
+		if hasPrefix(res, "panic") {
+			return "datagram decoder panicked"
+		}
 		if base == "concat" && isOK {
 			parts := splitSemi(res[3:])
 			if len(parts) == 3 && parts[0] != "err" && parts[1] != "err" {
@@ -484,6 +487,9 @@ func propertyFailsL(prop, op, res, lean string) (why string) {
 		}
 		return rembOracle(base, kind, args, res)
 	case "C15":
+		if base == "decalias" && res == "ok alias" {
+			return "a decoded extended report shares memory with the buffer it was decoded from: its blocks change when the caller reuses the buffer"
+		}
 		if base == "enc" && kind == "XR" && isOK {
 			return xrOracle(args, res)
 		}
@@ -503,6 +509,9 @@ func propertyFailsL(prop, op, res, lean string) (why string) {
 	case "C18":
 		if hasPrefix(res, "mutated") {
 			return res
+		}
+		if base == "decalias" && res == "ok alias" && kind != "SR" && kind != "RR" && kind != "APP" && kind != "RAW" {
+			return "a decoded " + kind + " shares memory with the input buffer (only RawPacket, SR/RR profile extensions and APP data are documented sub-slices)"
 		}
 		if base == "reuse" {
 			if f := fieldsOf(args); len(f) == 2 {
